@@ -178,7 +178,7 @@ def c02(pid, tier, seed, t0):
 
 def c03(pid, tier, seed, t0):
     stages = [H("walk-checked", "c03", "checked", args=["--scale", "3"])]
-    return run_stages(pid, tier, seed, t0, "exploration", stages, required=WALK_FEATURES,
+    return run_stages(pid, tier, seed, t0, "exploration", stages, required=WALK_FEATURES + ("transposition_pairs_compared",),
                       assumptions=WALK_ASSUME + ["'different keys on everything explored' is claimed for the positions "
                                                  "in the run-wide map only (capped, see x_positions_in_collision_map)"])
 
